@@ -131,20 +131,50 @@ func checkSelection(c *core.Ctx) {
 			n++
 			// whose NoRetractions flag is consulted: it must be the input's (the stream the LIMIT is applied to), not the
 			// flag of the node being built, which never retracts by construction
+			// the flag may reach the condition (and the constructor) through a local variable
+			flagExprs := []ast.Node{is.Cond}
 			ast.Inspect(is.Cond, func(x ast.Node) bool {
-				se, ok := x.(*ast.SelectorExpr)
-				if !ok || se.Sel.Name != "NoRetractions" {
-					return true
+				if id, ok := x.(*ast.Ident); ok {
+					if rhs := resolveAlias(info, fn, id); rhs != nil && rhs != ast.Expr(id) {
+						flagExprs = append(flagExprs, rhs)
+					}
 				}
-				owner := core.ExprStr(se.X)
-				okOwner := true
-				if p.FName(fn) == "physical.(*Node).Materialize" {
-					okOwner = strings.Contains(owner, ".Source.Schema")
-				}
-				c.Decide(okOwner, "MIR6", key+"/whose NoRetractions", se.Pos(), 1, "the input's retraction flag decides",
-					fmt.Sprintf("the choice between Limit and OrderSensitiveTransform must look at whether the *input* can retract (….Source.Schema.NoRetractions); it looks at %s.NoRetractions, which describes the node's own output", owner))
 				return true
 			})
+			for _, st := range is.Body.List {
+				ast.Inspect(st, func(x ast.Node) bool {
+					if call, ok := x.(*ast.CallExpr); ok && p.CalleeName(info, call) == "execution/nodes.NewOrderSensitiveTransform" && len(call.Args) == 5 {
+						flagExprs = append(flagExprs, call.Args[4])
+						if id, ok := core.Unparen(call.Args[4]).(*ast.Ident); ok {
+							if rhs := resolveAlias(info, fn, id); rhs != nil && rhs != ast.Expr(id) {
+								flagExprs = append(flagExprs, rhs)
+							}
+						}
+					}
+					return true
+				})
+			}
+			seenOwner := map[string]bool{}
+			for _, fe := range flagExprs {
+				ast.Inspect(fe, func(x ast.Node) bool {
+					se, ok := x.(*ast.SelectorExpr)
+					if !ok || se.Sel.Name != "NoRetractions" {
+						return true
+					}
+					owner := core.ExprStr(se.X)
+					if seenOwner[owner] {
+						return true
+					}
+					seenOwner[owner] = true
+					okOwner := true
+					if p.FName(fn) == "physical.(*Node).Materialize" {
+						okOwner = strings.Contains(owner, ".Source.Schema")
+					}
+					c.Decide(okOwner, "MIR6", key+"/whose NoRetractions", se.Pos(), 1, "the input's retraction flag decides",
+						fmt.Sprintf("the choice between Limit and OrderSensitiveTransform must look at whether the *input* can retract (….Source.Schema.NoRetractions); it looks at %s.NoRetractions, which describes the node's own output", owner))
+					return true
+				})
+			}
 			// the csv/json printer cannot express retractions at all: there the transform is needed whenever the plan
 			// can retract, LIMIT or not
 			eagerSite := false
